@@ -91,8 +91,12 @@ func findSelectorExprViolation(
 	ctx *packageOnlyContext,
 	expr *ast.SelectorExpr,
 ) *PackageOnlyViolation {
-	// Get the type information
-	obj := ctx.pass.TypesInfo.ObjectOf(expr.Sel)
+	// Get the type information. The object the selector refers to, not one it defines:
+	// the type of an embedded field (struct{ pkg.Type }) also defines the field
+	obj := ctx.pass.TypesInfo.Uses[expr.Sel]
+	if obj == nil {
+		obj = ctx.pass.TypesInfo.ObjectOf(expr.Sel)
+	}
 	if obj == nil {
 		return nil
 	}
